@@ -546,7 +546,7 @@ def _davidson(model: Model, D: RuleResult):
     okq = len(qr) == 2
     for c in qr:
         st = enclosing_stmt(c)
-        under_m = under(st, "%s is not None" % pM)
+        under_m = under(c, "%s is not None" % pM)
         kw = {k.arg: ast.unparse(k.value) for k in c.keywords}
         if under_m:
             mvk = [k.value for k in c.keywords if k.arg == "MV"]
